@@ -774,11 +774,13 @@ class KVEngine:
                 ctx.fault("invalid-request:gen-" + inv)
             return {"res": "raise:" + type(e).__name__}
         if inv is not None:
+            # neither statement says that out-of-domain generator arguments must be refused: if the library answers,
+            # the answer only has to be a well-formed vector (checked by the pool-wide invariant under C03)
             ctx.fault("invalid-request:gen-" + inv)
-            if J03 or J18:
-                ctx.oracle("rejects-invalid")
-                ctx.fail("invalid-accepted", "gen-" + inv, "%s(%r, %r) accepted invalid arguments" % (g, P, N))
-            return {"res": "accepted-invalid"}
+            if not isinstance(kv, self.KnotVector):
+                return {"res": "accepted-odd"}
+            self.pool[op["dst"]] = kv
+            return {"res": "accepted-unspecified", "replaced": op["dst"], "touched": {op["dst"]}}
         ctx.transitions += 1
         if J18:
             self.judge_generator(ctx, op, kv, stub, ws)
@@ -984,7 +986,7 @@ class KVEngine:
             def call():
                 kv.shift(a)
         basis0 = self._basis_before(kv, J18 and tag == "num")
-        res = self.mutate(ctx, op, kv, call, must, J03 or J18, "shift")
+        res = self.mutate(ctx, op, kv, call, must, J03, "shift")
         if res == "ok" and J18 and tag in ("num", "sim"):
             self.judge_affine(ctx, "shift", pre, kv, Fraction(1), eff, basis0)
         return {"res": res, "touched": {t}}
@@ -1022,7 +1024,7 @@ class KVEngine:
             def call():
                 kv.scale(s)
         basis0 = self._basis_before(kv, J18 and tag == "num" and must is None)
-        res = self.mutate(ctx, op, kv, call, must, J03 or J18, "scale")
+        res = self.mutate(ctx, op, kv, call, must, J03, "scale")
         if res == "ok" and J18 and must is None:
             self.judge_affine(ctx, "scale", pre, kv, eff, Fraction(0), basis0)
         return {"res": res, "touched": {t}}
@@ -1034,7 +1036,7 @@ class KVEngine:
         pre = self.exact_list(kv)
         isf_pre = any(isinstance(x, float) for x in list(kv))
         basis0 = self._basis_before(kv, J18 and not isf_pre and all(isinstance(x, Fraction) for x in list(kv)))
-        res = self.mutate(ctx, op, kv, lambda: kv.normalize(), None, J03 or J18, "normalize")
+        res = self.mutate(ctx, op, kv, lambda: kv.normalize(), None, J03, "normalize")
         if res == "ok" and J18:
             ctx.oracle("normalize-onto-unit-interval")
             raw = list(kv)
@@ -1199,8 +1201,7 @@ class KVEngine:
             return {"res": "skip"}
         must = None
         if tuple(self.exact_list(kv)[i] for i in (0, -1)) != tuple(self.exact_list(other)[i] for i in (0, -1)):
-            must = "ValueError"
-            ctx.probe("union-different-intervals")
+            ctx.probe("union-different-intervals")   # refusal here is C17's clause; C03 only needs a well-formed result
         osnap = self.snapshot(other)
         if which == "ior":
             def call():
@@ -1232,8 +1233,6 @@ class KVEngine:
             other, tag = self._other(op, ctx, cfg, kv)
             if other is None:
                 return {"res": "skip"}
-            if tuple(self.exact_list(kv)[i] for i in (0, -1)) != tuple(self.exact_list(other)[i] for i in (0, -1)):
-                must = "ValueError"
             osnap = self.snapshot(other)
             fn = (lambda: kv | other) if kind == "or" else (lambda: kv & other)
         elif kind in ("addl", "subl"):
@@ -1317,14 +1316,12 @@ class KVEngine:
             parts = None
             res = "raise:" + type(e).__name__
         if outside:
-            ctx.fault("invalid-request:split-outside")
-            if parts is not None and J03:
-                ctx.fail("invalid-accepted", "split-outside", "split accepted a node outside the interval")
+            ctx.fault("invalid-request:split-outside")   # whether split refuses is not C03's subject; pieces must be well formed
         if J03:
             ctx.oracle("operand-unchanged")
             if self.snapshot(kv) != pre:
                 ctx.fail("operand-modified", "split", "split changed its operand")
-        if parts is not None and not outside:
+        if parts is not None:
             for part in parts:
                 if self.check_vector(ctx, part, J03, "split-piece") is None:
                     return {"res": res}
@@ -1380,12 +1377,7 @@ class KVEngine:
             if self.snapshot(kv) != pre:
                 ctx.fail("operand-modified", "query", "a query changed the vector")
             if bad:
-                ctx.fault("invalid-request:query-nonnumeric")
-                if what == "valid":
-                    if r is not False:
-                        ctx.fail("query-mismatch", "valid-nonnumeric", "valid(non-numeric) gave %r" % (r,))
-                elif res == "ok":
-                    ctx.fail("query-mismatch", "nonnumeric-accepted", "%s accepted a non-numeric node" % what)
+                ctx.fault("invalid-request:query-nonnumeric")   # behaviour for non-numeric query nodes is not specified
             elif outside:
                 ctx.fault("invalid-request:query-outside")
                 if what == "valid":
